@@ -24,6 +24,7 @@ import BW.Proofs.PlannerStep6
 import BW.Proofs.PlannerStep11
 import BW.Proofs.Projection
 import BW.Proofs.Hooks
+import BW.Proofs.HooksHead
 
 namespace BW.Props.C03
 open BW.Model BW.Spec BW.Proofs.Query BW.Proofs.Planner BW.Proofs.Store BW.Proofs.ClauseOrder
@@ -276,6 +277,37 @@ example : PatClause exU exC :=
     fun o ho => by simp [exC] at ho, fun h => absurd rfl h, fun h => absurd rfl h⟩, fun h => by simp [exC, Clause.extractsNothing] at h⟩
 example : exC.optional = false ∧ exC.extractsNothing = false := by decide
 
+/-- The SELECT list means what its tokens say: the projection hook (`varAccumulator`) over the tokens of a
+    list of projections — `?b`, `?b as ?a`, `count(?b) as ?a`, `count(distinct ?b) as ?a`, `sum(?b) as ?a`,
+    separated by commas — followed by the flush the end of WHERE forces, has collected exactly the
+    projections written, in order, and changed nothing else of the statement. -/
+theorem select_list_means_its_tokens (ps : List BW.Proofs.HooksHead.PAst) (hps : ∀ p ∈ ps, p.ok)
+    (h : BW.Model.Hooks.Head) (hw : h.wproj = BW.Proofs.HooksHead.emptyProj) :
+    ∃ h', BW.Proofs.HooksHead.varRun h none (BW.Proofs.HooksHead.listToks ps) = some (h', none) ∧
+      h'.flush = { h with projs := h.projs ++ ps.map BW.Proofs.HooksHead.PAst.denote } :=
+  BW.Proofs.HooksHead.select_list_denote ps hps h hw
+
+/-- FROM means what it says: the input graphs are the bindings listed, in order. -/
+theorem from_means_its_tokens (gs : List Bytes) (h : BW.Model.Hooks.Head) :
+    BW.Proofs.HooksHead.optRun BW.Model.Hooks.graphStep h (BW.Proofs.HooksHead.commaToks gs) =
+      some { h with graphs := h.graphs ++ gs } :=
+  BW.Proofs.HooksHead.from_denote gs h
+
+/-- The global time bound means what it says, whatever an earlier statement left in the hook's closure:
+    `BEFORE t` sets the upper bound and only it, `AFTER t` the lower bound and only it, `BETWEEN t, t'` both. -/
+theorem global_bound_means_its_tokens (h : BW.Model.Hooks.Head) (cur : Nat) (t t' : Time) :
+    (BW.Proofs.HooksHead.boundsRun h { cur := cur } [BW.Proofs.HooksHead.tk .before, BW.Proofs.HooksHead.timeTk t]).map (·.1)
+      = some { h with upper := some t } ∧
+    (BW.Proofs.HooksHead.boundsRun h { cur := cur } [BW.Proofs.HooksHead.tk .after, BW.Proofs.HooksHead.timeTk t]).map (·.1)
+      = some { h with lower := some t } ∧
+    (BW.Proofs.HooksHead.boundsRun h { cur := cur } [BW.Proofs.HooksHead.tk .between, BW.Proofs.HooksHead.pairTk t t']).map (·.1)
+      = some { h with lower := some t, upper := some t' } :=
+  BW.Proofs.HooksHead.global_bound_denote h cur t t'
+
+/-- Non-vacuity: `select ?x, count(distinct ?y) as ?n` yields those two projections. -/
+example : ((BW.Proofs.HooksHead.varRun {} none (BW.Proofs.HooksHead.listToks [.plain [63, 120], .count [63, 121] [63, 110] true])).map
+    (fun r => r.1.flush.projs.map (fun p => (p.binding, p.alias, p.distinct)))) = some [([63, 120], [], false), ([63, 121], [63, 110], true)] := by decide
+
 end BW.Props.C03
 
 #print axioms BW.Props.C03.match_respects_constants_and_bounds
@@ -295,3 +327,6 @@ end BW.Props.C03
 #print axioms BW.Props.C03.one_clause_is_one_join
 #print axioms BW.Props.C03.projection_is_simultaneous
 #print axioms BW.Props.C03.where_clause_means_its_tokens
+#print axioms BW.Props.C03.select_list_means_its_tokens
+#print axioms BW.Props.C03.from_means_its_tokens
+#print axioms BW.Props.C03.global_bound_means_its_tokens
